@@ -94,7 +94,7 @@ pub fn p_sync_props(a: u32, s: &str, log: &Log) -> usize {
     s.len() + a as usize
 }
 #[allow(unused_mut)]
-#[trace(properties = { "k1": "v1", "a": "a is {a:?}", "s": "{s}-{a}", "esc": "{{literal}}", "mix": "{{{a}}}" })]
+#[trace(properties = { "k1": "v1", "a": "a is {a:?}", "s": "{s}-{a}", "esc": "{{literal}}", "mix": "{{{a}}}", "close": "limit}}", "open": "{{only", "both": "{{}}", "empty": "" })]
 pub fn t_sync_props(a: u32, s: &str, log: &Log) -> usize {
     log.path(fastrace::func_path!());
     log.push(format!("props {a} {s}"));
@@ -485,6 +485,10 @@ pub fn expected(f: u8, arg: u32) -> ExpSpan {
                 kv("s", format!("{s}-{a}")),
                 kv("esc", "{literal}".into()),
                 kv("mix", format!("{{{a}}}")),
+                kv("close", "limit}".into()),
+                kv("open", "{only".into()),
+                kv("both", "{}".into()),
+                kv("empty", String::new()),
             ],
             false,
         ),
